@@ -3,7 +3,7 @@
    Pure/C16_Bounds.v (bounded / impose_bounds; reals), Pure/C16_Nearest.v (discrete over reals; integers / rounded / precision
    over Q), Pure/C16_Surgery.v (impose_at, partial, masked, synchronized; any carrier) and Pure/C16_Moments.v (with_mean,
    with_variance, with_spread, normalized, unique, impose_as; reals).  This file re-exports them and adds the witnesses for the
-   impose_as findings, evaluated on the Q instance of the model. *)
+   two remaining impose_as findings, evaluated on the Q instance of the model. *)
 From Coq Require Import ZArith QArith List Bool.
 From MV Require Import Common.Num Pure.Transforms.
 From MV Require Export Pure.C16_Order Pure.C16_Surgery Pure.C16_Nearest Pure.C16_Bounds Pure.C16_Moments.
@@ -13,16 +13,12 @@ Definition qred_result (o : option (list Q)) : option (list Q) := option_map (ma
 
 (* FULL STATEMENT (false): for every mask in which each entry tracks at most one partner and no cycle occurs, and every x,
    impose_as mask off x = Some y  implies  y[j] = y[i] + off for every pair (i,j) with both indices in range,
-   and impose_as mask off y = Some y.   Three independent counterexamples (each reproduced on mystic, see known_findings.d/C16.txt). *)
-
-(* tools.connected adds a pair bridging two existing groups to the first group only: entry 2 does not track entry 1 *)
-Lemma impose_as_bridging_pair_refuted :
-  exists mask x y, qred_result (impose_as NumQ mask 0%Q x) = Some y /\ mask = [(2, 3); (0, 1); (1, 2)]%Z /\
-                   ~ (nth 2 y 0 == nth 1 y 0)%Q.
-Proof.
-  exists [(2, 3); (0, 1); (1, 2)]%Z, [9; 8; 7; 6]%Q, [9; 9; 7; 7]%Q.
-  split; [vm_compute; reflexivity|]. split; [reflexivity|]. cbn. intro H. discriminate H.
-Qed.
+   and impose_as mask off y = Some y.   Two independent counterexamples remain (each reproduced on mystic, see
+   known_findings.d/C16.txt).  The third one (a pair bridging two groups of tools.connected) was repaired in /repo: connected() now
+   merges the groups (C16_Moments.connected_pair_same_group, connected_wf); the former witness is now tied: *)
+Example impose_as_bridging_pair_now_tied :
+  qred_result (impose_as NumQ [(2, 3); (0, 1); (1, 2)]%Z 0%Q [9; 8; 7; 6]%Q) = Some [9; 9; 9; 9]%Q.
+Proof. vm_compute. reflexivity. Qed.
 
 (* the group root chosen by connected() is itself tracked: a conforming vector drifts by the offset on every application *)
 Lemma impose_as_offset_drift_refuted :
